@@ -97,7 +97,7 @@ def gateCheck (fs : FS) (c : PutCfg) (volume : Bytes) (cand : Candidate) : Optio
   match cand.gate with
   | .homeFallback => if c.env.fallbackEnv = some (b "1") then none else some .fallbackDisabled
   | .sameVolume =>
-    let tv := volumeOf fs c.cwd (realpathStr fs c.cwd (normpath cand.path))
+    let tv := volumeOf fs c.cwd (realpathStr fs c.cwd cand.path)     -- TrashDirVolumeReader: realpath of the path as spelled
     if tv = volume then none else some .differentVolumes
 
 /-- `OriginalLocation.for_file` -/
